@@ -23,6 +23,7 @@ pub fn sem_cfg() -> GenCfg {
         max_defs: 2,
         object_bias: 1,
         only_null: true,
+        inter_nullable: false,
     }
 }
 
@@ -731,7 +732,7 @@ pub enum C06Case {
 }
 
 pub fn c06_cfg() -> GenCfg {
-    GenCfg { formats: false, templates: false, max_depth: 3, max_defs: 2, ..GenCfg::default() }
+    GenCfg { formats: false, templates: false, max_depth: 3, max_defs: 2, inter_nullable: false, ..GenCfg::default() }
 }
 
 fn in_sem_universe(v: &JsVal) -> bool {
@@ -916,7 +917,7 @@ pub struct C07Case {
 }
 
 pub fn c07_cfg() -> GenCfg {
-    GenCfg { formats: false, templates: false, any: false, max_depth: 3, max_defs: 2, ..GenCfg::default() }
+    GenCfg { formats: false, templates: false, any: false, max_depth: 3, max_defs: 2, inter_nullable: false, ..GenCfg::default() }
 }
 
 pub struct C07;
